@@ -143,7 +143,11 @@ struct C05 : Check {
 			// (a/i/c under a global read one text block per matching line from the terminal: a legitimate wait for
 			// input that no fixed quit suffix can satisfy, so they are not generated as global subcommands)
 			static const char *sub[] = {"d", "p", "s/a/b/", "pu", "-1d", ".,+1d", "g/a/d", "normal", "", "u", "e #", "b !", "w", "y a"};
-			return "/" + pattern(r) + "/" + sub[r.below(14)];
+			std::string pat = pattern(r);
+			// a pattern ending in an odd backslash would escape the closing delimiter and turn the
+			// subcommand's first letters into part of the pattern: "s/a/b/" then reads as the text command a
+			if (!pat.empty() && pat.back() == '\\') pat += "\\";
+			return "/" + pat + "/" + sub[r.below(14)];
 		}
 		if (cmd == "e" || cmd == "e!" || cmd == "ew" || cmd == "r" || cmd == "w" || cmd == "w!" || cmd == "so") {
 			static const char *p[] = {"", "F0", "F1", "F2", "missing", "%", "#", "dir", "ro", "+3 F1", "+/a/ F0", "+ F0", "new1", "tags", "=F0", "a b", "\\%", "!cat", "!head -1", "!true", "!", "!seq 300"};
@@ -236,9 +240,14 @@ struct C05 : Check {
 		Rng r(seed * 0x9e3779b97f4a7c15ull + 0xC05);
 		int mode = r.weighted({6, 2, 2});
 		Plan p = base_plan("C05", seed, mode == 0 ? "vi" : mode == 1 ? "ex" : "exs");
-		if (mode == 0) p.quit = std::string("\x1b\x1b\x1b:\x05q!\n");
-		else if (mode == 1) p.quit = std::string("\x05\n\x05\n.\n\x05.\n\x05q!\n");
-		else p.quit = "\n\n.\n.\nq!\n";
+		// The quit suffix a patient user types: a register executed as ex commands (":@a" after "Nyy") may hold
+		// hundreds of lines that happen to start with a, i or c, and each of them legitimately waits for a
+		// text block; every ESC / "." ends one.  Then the quit command proper.
+		std::string many_esc(400, '\x1b'), many_dot;
+		for (int i = 0; i < 400; i++) many_dot += ".\n";
+		if (mode == 0) p.quit = many_esc + ":\x05q!\n";
+		else if (mode == 1) p.quit = std::string("\x05\n\x05\n") + many_dot + "\x05.\n\x05q!\n";
+		else p.quit = "\n\n" + many_dot + "q!\n";
 		// windows from 2x2 upward, biased small
 		int wk = (int) r.below(10);
 		p.rows = wk == 0 ? 2 : wk == 1 ? 3 : wk < 5 ? (int) r.range(2, 8) : wk < 9 ? (int) r.range(8, 40) : (int) r.range(40, 120);
